@@ -1,10 +1,22 @@
 import JL.Wire
-/-! Driver entry for `spec.*` commands (the reference semantics); filled in as the spec layer grows. -/
+import JL.Spec.ES
+import JL.Spec.ESNum
+/-! Driver entry for `spec.*` commands: the reference semantics (ECMA-262 layer), so that the SPECIFICATION itself can be
+validated against an independent ECMAScript engine (V8, `tools/es_truth.js`) — not part of any theorem. -/
 namespace JL.Spec
 open JL JL.Wire
 
 def step (cmd : String) (args : List Json) : String :=
   match cmd, args with
+  | "spec.loosely_equal", [a, b] => encB (ES.looselyEqual ES.stringToNumber a b)
+  | "spec.strictly_equal", [a, b] => encB (ES.strictlyEqual (ES.ofJson a) (ES.ofJson b))
+  | "spec.less_than", [a, b] => encB (ES.lessThan ES.stringToNumber a b)
+  | "spec.less_eq", [a, b] => encB (ES.lessEq ES.stringToNumber a b)
+  | "spec.greater_than", [a, b] => encB (ES.greaterThan ES.stringToNumber a b)
+  | "spec.greater_eq", [a, b] => encB (ES.greaterEq ES.stringToNumber a b)
+  | "spec.string_to_number", [.str s] => encF (ES.stringToNumber s)
+  | "spec.parse_float", [.str s] => encF (ES.parseFloat s)
+  | "spec.to_number", [v] => encF (ES.toNumber ES.stringToNumber v)
   | _, _ => "bad-op"
 
 end JL.Spec
